@@ -106,6 +106,10 @@ def build() -> Check:
         body_exc = any(e.data.get("outcome", "").startswith("builtins.Exception") for e in us)
         if len(us) != 1:
             bad.append(("the body of a summarised context must be re-traversed exactly once", t))
+        if t.kinds("ORPHANCHECK"):
+            bad.append(("the re-traversal of a summarised context asks the orphan state first: everything beneath a context that completed in this invocation is "
+                        "marked as done, so a branch that is resumed in-process and traverses its own completed, nested summarised contexts again is rejected as "
+                        "orphaned (it stays RUNNING and the invocation never returns)", t))
         if (t.kinds("CKPT") and not body_exc) or t.kinds("SER"):
             bad.append(("a summarised context sends a record / re-serialises on replay", t))
         if t.outcome == "return" and not t.value.key().startswith("ret:func"):
